@@ -123,8 +123,12 @@ class GeckoSnapshot:
         )
 
     def _re_data_segment(self, groups):
-        data = groups[0].replace("'", "\\x27")
-        bytes_ = ast.literal_eval(f"b'{data}'")
+        data = groups[0]
+        # An unescaped single quote means the bytes were logged as b"..."
+        if re.search(r"(?<!\\)(?:\\\\)*'", data):
+            bytes_ = ast.literal_eval(f'b"{data}"')
+        else:
+            bytes_ = ast.literal_eval(f"b'{data}'")
         self._status_block_handler.handle(bytes_, None)
         self._status_block_segments.append(self._status_block_handler.data)
         if self._status_block_handler.next == 0:
